@@ -1,4 +1,155 @@
-import DesperModel.World
+import DesperProofs.Lemmas.WorldDead
+/-
+  C05 — Deferred entity deletion is applied at the next process, safely.
+
+  Model: DesperModel/World.lean (`deleteEntity`, `clearDead`/`sweep`, `process`, and the mark
+  being dropped together with the row in `detach`, mirror world.py:283-318, 337-349, 494-504).
+  `GoodHist U s ops`: every `delete_entity(e)` of the history is applied to an entity that exists
+  at that moment (the property's proviso), and no `process` was given an invalid sweep-order hint.
+-/
 open Desper Desper.World
 
-theorem C05_placeholder : (1:Nat) = 1 := rfl
+/-- Step one, at once: the entity stops existing for `entity_exists`/`entities` while its
+components remain queryable; nothing else changes and nothing can fail. -/
+theorem C05_two_step (U : Universe) (s : St) (e : Ent) :
+    (deleteEntity U s e false).2 = .ok ∧
+    entityExists (deleteEntity U s e false).1 e = false ∧
+    e ∉ entities (deleteEntity U s e false).1 ∧
+    (∀ e', getComponents (deleteEntity U s e false).1 e' = getComponents s e') ∧
+    (∀ t, World.get U (deleteEntity U s e false).1 t = World.get U s t) := by
+  have hd : (deleteEntity U s e false).1 = { s with dead := setAdd s.dead e } := rfl
+  have hmem : e ∈ setAdd s.dead e := (mem_setAdd _ _ _).mpr (.inr rfl)
+  refine ⟨rfl, ?_, ?_, ?_, ?_⟩
+  · rw [hd]; simp [entityExists, hmem]
+  · rw [hd]; simp [entities, hmem]
+  · intro e'; rfl
+  · intro t; rfl
+
+/-- Step two happens at the start of the next `process()`, before any processor runs: the log of
+a `process` call is the old log, then `on_remove` callbacks only, then processor (and on_update)
+calls only. -/
+theorem C05_applied_first (U : Universe) (s : St) (dt : String) :
+    ∃ removals calls, (process U s dt).1.log = calls ++ removals ++ s.log ∧
+      (∀ x ∈ removals, isLife x) ∧ (∀ x ∈ calls, isProc x ∨ isProbe x) := by
+  unfold process
+  obtain ⟨l1, hl1, hp1⟩ := clearDead_ext U s
+  cases hx : clearDead U s with
+  | mk s' o =>
+    rw [hx] at hl1
+    have hrun : ∀ (s0 : St) (ps : List Obj), ∃ l, (runProcs U s0 dt ps).1.log = l ++ s0.log ∧
+        ∀ x ∈ l, isProc x ∨ isProbe x := by
+      intro s0 ps
+      induction ps generalizing s0 with
+      | nil => exact ⟨[], rfl, by simp⟩
+      | cons p ps ih =>
+        simp only [runProcs]
+        have hlog := callCb_log U s0 p "process" (.proc p dt)
+        cases hy : callCb U s0 p "process" (.proc p dt) with
+        | mk s1 o1 =>
+          rw [hy] at hlog
+          cases o1 <;> simp only
+          · -- optional on_update dispatch
+            have hd : ∃ l, (if (U.cls (tyOf U p)).isOnUpdate then dispatchPlain U s1 "on_update" dt
+                else (s1, Disp.Outcome.ok)).1.log = l ++ s1.log ∧ ∀ x ∈ l, isProbe x := by
+              split
+              · exact dispatchPlain_ext U s1 "on_update" dt
+              · exact ⟨[], rfl, by simp⟩
+            generalize (if (U.cls (tyOf U p)).isOnUpdate then dispatchPlain U s1 "on_update" dt
+                else (s1, Disp.Outcome.ok)) = r at hd
+            obtain ⟨r1, r2⟩ := r
+            obtain ⟨l2, hl2, hp2⟩ := hd
+            simp only at hl2
+            cases r2 <;> simp only
+            · obtain ⟨l3, hl3, hp3⟩ := ih r1
+              refine ⟨l3 ++ l2 ++ [.proc p dt], ?_, ?_⟩
+              · rw [hl3, hl2, hlog]; simp
+              · intro x hx
+                simp only [List.mem_append, List.mem_singleton] at hx
+                rcases hx with (h | h) | h
+                · exact hp3 x h
+                · exact .inr (hp2 x h)
+                · subst h; exact .inl trivial
+            all_goals
+              refine ⟨l2 ++ [.proc p dt], by rw [hl2, hlog]; simp, ?_⟩
+              intro x hx
+              simp only [List.mem_append, List.mem_singleton] at hx
+              rcases hx with h | h
+              · exact .inr (hp2 x h)
+              · subst h; exact .inl trivial
+          all_goals exact ⟨[.proc p dt], by rw [hlog]; rfl, by simp [isProc]⟩
+    cases o <;> simp only
+    · obtain ⟨l2, hl2, hp2⟩ := hrun s' s'.sorted
+      exact ⟨l1, l2, by rw [hl2, hl1, List.append_assoc], hp1, hp2⟩
+    all_goals exact ⟨l1, [], by simpa using hl1, hp1, by simp⟩
+
+/-- `process()` completes for every history in which each deleted entity existed when
+`delete_entity` was called, whatever happened to it in between (components removed one by one,
+deleted again, deleted immediately, re-created): the deletion bookkeeping never raises, every
+entity awaiting deletion is emptied — its identifier is free again — and nothing is left pending. -/
+theorem C05_process_total (U : Universe) (hn : NoRaise U) (hints : List (List Ent))
+    (ops : List Op) (hg : GoodHist U { sweepHints := hints } ops) (dt : String)
+    (hb : (process U (run U { sweepHints := hints } ops) dt).2 ≠ .badHint) :
+    (process U (run U { sweepHints := hints } ops) dt).2 = .ok ∧
+    (∀ e ∈ (run U { sweepHints := hints } ops).dead,
+        row (process U (run U { sweepHints := hints } ops) dt).1 e = [] ∧
+        entityExists (process U (run U { sweepHints := hints } ops) dt).1 e = false) ∧
+    (process U (run U { sweepHints := hints } ops) dt).1.dead = [] := by
+  have hinv := tabInv_run (tabInv_init U hints) ops
+  have hd := deadOk_run (U := U) (s := { sweepHints := hints }) (by intro x hx; simp at hx) ops hg
+  generalize run U { sweepHints := hints } ops = s at hinv hd hb ⊢
+  have hdead := process_dead U s dt hb
+  have hb' : (clearDead U s).2 ≠ .badHint := by
+    intro hc
+    apply hb
+    unfold process
+    cases hx : clearDead U s with
+    | mk s' o => rw [hx] at hc; simp only at hc; subst hc; rfl
+  obtain ⟨c1, c2⟩ := clearDead_total hn s hinv hd hb'
+  have hproc : (process U s dt).2 = .ok ∧
+      (process U s dt).1.ents = (clearDead U s).1.ents := by
+    unfold process
+    cases hx : clearDead U s with
+    | mk s' o =>
+      rw [hx] at c1
+      simp only at c1; subst c1
+      simp only
+      exact ⟨(runProcs_exact hn s' dt s'.sorted).1, (runProcs_tables U s' dt _).ents⟩
+  refine ⟨hproc.1, ?_, hdead⟩
+  intro e he
+  have hrow : row (process U s dt).1 e = [] := by
+    rw [row_of_ents hproc.2]; exact c2 e he
+  refine ⟨hrow, ?_⟩
+  simp only [entityExists, Bool.and_eq_false_imp, Bool.not_eq_eq_eq_not, Bool.not_false]
+  intro hsome
+  exfalso
+  have hinv' := tabInv_process hinv dt
+  obtain ⟨r, hr⟩ := Option.isSome_iff_exists.mp hsome
+  have := hinv'.noEmptyRow e r hr
+  apply this
+  rw [← row_eq_of_get? hr]; exact hrow
+
+/-- A failed `process()` never leaves the world failing on every later frame: whatever stopped
+the frame (a raising `on_remove` callback, a raising processor, a `KeyError` for an entity that
+never existed), nothing is awaiting deletion afterwards, so the deletion sweep of the next frame
+has nothing to do and cannot fail. -/
+theorem C05_no_sticky_failure (U : Universe) (s : St) (dt : String)
+    (hb : (process U s dt).2 ≠ .badHint) :
+    (process U s dt).1.dead = [] ∧
+    ∀ s', s'.dead = [] → s'.sweepHints = [] → clearDead U s' = ({ s' with dead := [], sweepHints := [] }, .ok) := by
+  refine ⟨process_dead U s dt hb, ?_⟩
+  intro s' h1 h2
+  simp [clearDead, h1, h2, isPerm, nodupB, sweep]
+
+/-! non-vacuity: delete, strip the entity component by component before the frame, process twice -/
+private def exU : Universe :=
+  { classes := [{ bases := [] }], mapping := fun _ => none, objTy := fun _ => some 0,
+    raises := fun _ _ _ => none }
+
+example : NoRaise exU ∧ GoodHist exU {} [.create none [0], .delete 1 false, .remove 1 0] ∧
+    (process exU (run exU {} [.create none [0], .delete 1 false, .remove 1 0]) "1").2 = .ok ∧
+    (process exU (run exU {} [.create none [0], .delete 1 false]) "1").2 = .ok ∧
+    entities (process exU (run exU {} [.create none [0], .delete 1 false]) "1").1 = [] := by
+  refine ⟨fun _ _ _ => rfl, ?_, by decide, by decide, by decide⟩
+  refine ⟨trivial, by decide, ?_, by decide, trivial, by decide, trivial⟩
+  show (Dict.get? (step exU {} (Op.create none [0])).1.ents 1).isSome = true
+  decide
